@@ -145,11 +145,36 @@ let () =
                  else if t = "model:pinned" then pinned := true
                  else raise (Unsupported ("token " ^ t))) toks;
              if !flags <> 0 then raise (Unsupported "handler flags");
-             let (slot, k, o, c) = match !args with [a] -> parse_arg a | _ -> raise (Unsupported "one argument expected") in
+             (* one container argument, optionally one boolean flag argument *)
+             let is_flag a =
+               let p1 = String.index_from a 4 ':' in
+               let p2 = try String.index_from a (p1 + 1) ':' with Not_found -> String.length a in
+               slot_kind (String.sub a (p1 + 1) (p2 - p1 - 1)) = "b" in
+             let conts = List.filter (fun a -> not (is_flag a)) !args and flags = List.filter is_flag !args in
+             let (slot, k, o, c) = match conts with [a] -> parse_arg a | _ -> raise (Unsupported "one container argument expected") in
+             let (fslot, fspell, finit) = match flags with
+               | [] -> ("", [], false)
+               | [a] ->
+                   let p1 = String.index_from a 4 ':' in
+                   let p2 = try String.index_from a (p1 + 1) ':' with Not_found -> String.length a in
+                   let spec = String.sub a 4 (p1 - 4) in
+                   let fs = String.sub a (p1 + 1) (p2 - p1 - 1) in
+                   let opts = if p2 >= String.length a then [] else split_on '/' (String.sub a (p2 + 1) (String.length a - p2 - 1)) in
+                   let idx = int_of_string (after "b" fs) in
+                   let init = ref (idx >= 2) in
+                   List.iter (fun opt -> if starts "init=" opt then init := (after "init=" opt = "1")
+                               else if opt = "" then () else raise (Unsupported ("flag option " ^ opt))) opts;
+                   let spell = List.map (fun w -> if String.length w = 1 then "-" ^ w else "--" ^ w)
+                       (String.split_on_char ',' spec) in
+                   (fs, spell, !init)
+               | _ -> raise (Unsupported "at most one flag argument") in
              if not (setup_ok k o) then raise Setup;
              let words = List.map str_of_string !argv in
-             (match (if !pinned then eval_pinned else eval) k o c words with
-              | Ok st -> Printf.printf "%s ok %s=%s ## - | -\n" id slot (show st.c_val)
+             (match (if !pinned then eval_pinned else eval) k o c (List.map str_of_string fspell) words with
+              | Ok (st, fc) ->
+                  let vals = (slot ^ "=" ^ show st.c_val) ::
+                             (if fslot = "" then [] else [fslot ^ "=" ^ (if flag_value finit fc then "1" else "0")]) in
+                  Printf.printf "%s ok %s ## - | - | -\n" id (String.concat " " (List.sort compare vals))
               | Err e -> Printf.printf "%s err ## %s\n" id (err_name e)
               | Fault _ -> Printf.printf "%s FAULT ## fault\n" id)
            with
